@@ -262,7 +262,9 @@ func runRoute(t *testing.T, c spec.Case, e Em) {
 				o.PeerID, o.PeerNonce, o.PayloadOK, o.Extra, o.Err = x.PeerID, x.PeerNonce, x.PayloadOK, x.Extra, errStr(err)
 			} else {
 				var r *vp.DialRes
-				if it.WaitReady {
+				if it.ShortConnect {
+					r = vp.GRPCDialPingShort(dg, id, 40*time.Second)
+				} else if it.WaitReady {
 					r = vp.GRPCDialPingWait(dg, id, 40*time.Second)
 				} else {
 					r = vp.GRPCDialPing(dg, id, 60*time.Second, false)
